@@ -307,20 +307,39 @@ def run(ctx):
                         q = cir.types[cir.query]
                         new_ir = copy.deepcopy(cir)
                         t = SType("object", "Added%d" % n, "added by extension")
-                        t.fields = [SField("added_leaf", named("Int"))]
+                        t.fields = [SField("added_leaf", named("Int")), SField("added_extra", named("String"))]
                         new_ir.add(t)
                         new_ir.types[cir.query].fields.append(SField("added%d" % n, named(t.name)))
-                        text = 'type Added%d {\n  added_leaf: Int\n}\n"""\nadded by extension\n"""\n' % n
-                        text = '"""\nadded by extension\n"""\ntype Added%d {\n  added_leaf: Int\n}\n\nextend type %s {\n  added%d: Added%d\n}\n' % (n, q.name, n, n)
+                        # the parts may come in any order: in particular the new type is extended by the
+                        # same document, before or after its own definition
+                        parts = ['"""\nadded by extension\n"""\ntype Added%d {\n  added_leaf: Int\n}\n' % n,
+                                 'extend type Added%d {\n  added_extra: String\n}\n' % n,
+                                 'extend type %s {\n  added%d: Added%d\n}\n' % (q.name, n, n)]
                         enums = [x for x in cir.types.values() if x.kind == "enum"]
                         if enums and rng.random() < 0.5:
                             e = rng.choice(enums)
-                            text += "\nextend enum %s {\n  ADDED_%d\n}\n" % (e.name, n)
+                            parts.append("extend enum %s {\n  ADDED_%d\n}\n" % (e.name, n))
                             new_ir.types[e.name].values.append(S.SEnumValue("ADDED_%d" % n))
+                        unions = [x for x in cir.types.values() if x.kind == "union"]
+                        if unions and rng.random() < 0.4:
+                            u = rng.choice(unions)
+                            parts.append("extend union %s = Added%d\n" % (u.name, n))
+                            new_ir.types[u.name].members.append(t.name)
+                        inputs = [x for x in cir.types.values() if x.kind == "input"]
+                        if inputs and rng.random() < 0.4:
+                            it = rng.choice(inputs)
+                            parts.append("extend input %s {\n  added_in_%d: Int = 3\n}\n" % (it.name, n))
+                            new_ir.types[it.name].input_fields.append(S.SInput("added_in_%d" % n, named("Int"), 3))
+                        rng.shuffle(parts)
+                        text = "\n".join(parts)
                         step["document"] = text
                         res = State(extend_schema(cur.schema, text), new_ir, cur.idmap, "s%d" % len(states))
                         removes = True
                 except (SchemaError, SDLError) as e:
+                    if kind == "extend":
+                        # the extension document is valid by construction against the current schema
+                        ctx.violation("extend:valid-document-refused:%s" % type(e).__name__, witness, str(e)[:300])
+                        break
                     # refusing to produce an invalid schema is allowed (e.g. a type left without fields)
                     step["refused"] = type(e).__name__
                     ctx.count("operations_refused")
